@@ -108,7 +108,7 @@ def check_nickname(sess):
     ex = Exec(ctx)
     p = Path()
     dev.new_board(p)
-    obj = sm.new_ebb3(p)
+    obj = sm.new_ebb3(p, extra={'name': sym_str('name_known_before')})      # any earlier nickname may be cached
     s = sym_str('nickname')
     want = strops.strip(ex, p, s)
     n = 0
@@ -120,9 +120,15 @@ def check_nickname(sess):
         nick = q.ghost['board']['nick']
         se = nick.struct_eq(want)
         oblige_at(ex, q, tag, 'ensures', z3.BoolVal(se) if se is not None else (nick.z() == want.z()), 'board-stores-the-trimmed-text')
-        q.heap[obj.ref].fields['name'] = NONE      # forget the cached name: it must come back from the board
-        for q2, out2 in ex.run_function(q, EB, 'EBB3.query_nickname', [obj]):
-            tag2 = 'EBB3.query_nickname(after-write)'
+        nm1 = sm.field(q, obj, 'name')
+        se1 = nm1.struct_eq(want) if isinstance(nm1, VStr) else False
+        oblige_at(ex, q, tag, 'ensures', z3.BoolVal(se1) if se1 is not None else (nm1.z() == want.z()), 'object-reports-the-trimmed-text-as-its-name')
+        for forget in (True, False):
+          qq = q.fork()
+          if forget:
+            qq.heap[obj.ref].fields['name'] = NONE      # forget the cached name: it must come back from the board
+          for q2, out2 in ex.run_function(qq, EB, 'EBB3.query_nickname', [obj]):
+            tag2 = f'EBB3.query_nickname(after-write{",cache-cleared" if forget else ""})'
             if not no_raise(ex, q2, out2, tag2):
                 continue
             nm = sm.field(q2, obj, 'name')
